@@ -521,4 +521,55 @@ theorem mrm_MergeOrRebalanceChildSlab_gen (d : Nat)
 
 end mor
 
+/-! ### the `Ctx` component of the heap after = the model's -/
+
+section morCtx
+variable {r : Nat} (T : Nat)
+
+theorem mrm_rebHeapOf_ctx (d : Nat) (m : MMetaSlab (MTree r d)) (x : Option DX) (l rr : MTree r d) (li ri : Nat)
+    (b : Bool) (s : MHSt r) (m' : MMetaSlab (MTree r d)) (c' : Ctx)
+    (h : MMetaSlab.rebalanceChildren T m l rr li ri b s.ctx = .ok (m', c')) :
+    (mrm_rebHeapOf T d m x l rr li ri b s).ctx = c' := by
+  simp only [mrm_rebHeapOf, h, mrm_rebHeap, msl_rebalanced]
+  cases b with
+  | true =>
+    simp only [MMetaSlab.rebalanceChildren, ↓reduceIte] at h ⊢
+    cases hres : MTree.borrowFromRight T d l rr with
+    | error e => rw [hres] at h; cases h
+    | ok p => rw [hres] at h; cases h; rfl
+  | false =>
+    simp only [MMetaSlab.rebalanceChildren, Bool.false_eq_true, ↓reduceIte] at h ⊢
+    cases hres : MTree.lendToRight T d l rr with
+    | error e => rw [hres] at h; cases h
+    | ok p => rw [hres] at h; cases h; rfl
+
+theorem mrm_mergeHeapOf_ctx (d : Nat) (m : MMetaSlab (MTree r d)) (x : Option DX) (l rr : MTree r d) (li ri : Nat)
+    (s : MHSt r) :
+    (mrm_mergeHeapOf d m x l rr li ri s).ctx = (MMetaSlab.mergeChildren m l rr li ri s.ctx).2 := by
+  simp only [mrm_mergeHeapOf, mrm_mergeHeap, MMetaSlab.mergeChildren, MHSt.remove_ctx, MHSt.store_ctx]
+
+/-- the `Ctx` of the heap after `MergeOrRebalanceChildSlab` is the model's resulting `Ctx` -/
+theorem mrm_morHeap_ctx (d : Nat) (m : MMetaSlab (MTree r d)) (x : Option DX) (child : MTree r d) (k u : Nat)
+    (s : MHSt r) (m' : MMetaSlab (MTree r d)) (c' : Ctx)
+    (h : MMetaSlab.mergeOrRebalanceChildSlab T m child k u s.ctx = .ok (m', c')) :
+    (mrm_morHeap T d m x child k u s).ctx = c' := by
+  revert h
+  simp only [MMetaSlab.mergeOrRebalanceChildSlab, mrm_morHeap]
+  generalize (if k > 0 then m.children[k - 1]? else none) = ls
+  generalize (if k + 1 < m.childHdrs.length then m.children[k + 1]? else none) = xs
+  rcases ls with _ | l <;> rcases xs with _ | y <;> simp only [Bool.or_false, Bool.false_or]
+  · intro h; split at h <;> cases h
+  · split
+    · exact mrm_rebHeapOf_ctx T d m x _ _ _ _ _ s m' c'
+    · intro h; rw [mrm_mergeHeapOf_ctx]; exact congrArg Prod.snd (Except.ok.inj h)
+  · split
+    · exact mrm_rebHeapOf_ctx T d m x _ _ _ _ _ s m' c'
+    · intro h; rw [mrm_mergeHeapOf_ctx]; exact congrArg Prod.snd (Except.ok.inj h)
+  · repeat' split
+    all_goals first
+      | exact mrm_rebHeapOf_ctx T d m x _ _ _ _ _ s m' c'
+      | (intro h; rw [mrm_mergeHeapOf_ctx]; exact congrArg Prod.snd (Except.ok.inj h))
+
+end morCtx
+
 end Atree.TransEq
